@@ -296,3 +296,107 @@ macro_rules! float_newtype {
 }
 float_newtype!(New32, f32);
 float_newtype!(New64, f64);
+
+
+/// f64 stored with all bits inverted: same arithmetic as f64, but `zero()` is NOT the all-zero bit pattern (all-zero
+/// bits decode to NaN), so a value created by zeroing memory instead of through `Zero::zero()` poisons the result
+#[derive(Copy, Clone, Debug, PartialEq, PartialOrd)]
+pub struct Inv64(pub u64);
+impl Inv64 {
+    pub fn new(v: f64) -> Self {
+        Inv64(!v.to_bits())
+    }
+    pub fn val(self) -> f64 {
+        f64::from_bits(!self.0)
+    }
+}
+macro_rules! inv_bin {
+    ($tr:ident, $f:ident, $op:tt) => {
+        impl $tr for Inv64 {
+            type Output = Inv64;
+            fn $f(self, o: Inv64) -> Inv64 {
+                Inv64::new(self.val() $op o.val())
+            }
+        }
+    };
+}
+inv_bin!(Add, add, +);
+inv_bin!(Sub, sub, -);
+inv_bin!(Mul, mul, *);
+inv_bin!(Div, div, /);
+impl Rem for Inv64 {
+    type Output = Inv64;
+    fn rem(self, o: Inv64) -> Inv64 {
+        nonring();
+        Inv64::new(self.val() % o.val())
+    }
+}
+impl Neg for Inv64 {
+    type Output = Inv64;
+    fn neg(self) -> Inv64 {
+        Inv64::new(-self.val())
+    }
+}
+impl Zero for Inv64 {
+    fn zero() -> Self {
+        Inv64::new(0.0)
+    }
+    fn is_zero(&self) -> bool {
+        self.val() == 0.0
+    }
+}
+impl One for Inv64 {
+    fn one() -> Self {
+        Inv64::new(1.0)
+    }
+}
+impl Num for Inv64 {
+    type FromStrRadixErr = ();
+    fn from_str_radix(_: &str, _: u32) -> Result<Self, ()> {
+        Err(())
+    }
+}
+impl Signed for Inv64 {
+    fn abs(&self) -> Self {
+        nonring();
+        Inv64::new(self.val().abs())
+    }
+    fn abs_sub(&self, o: &Self) -> Self {
+        nonring();
+        Inv64::new((self.val() - o.val()).max(0.0))
+    }
+    fn signum(&self) -> Self {
+        nonring();
+        Inv64::new(self.val().signum())
+    }
+    fn is_positive(&self) -> bool {
+        nonring();
+        self.val() > 0.0
+    }
+    fn is_negative(&self) -> bool {
+        nonring();
+        self.val() < 0.0
+    }
+}
+impl ToPrimitive for Inv64 {
+    fn to_i64(&self) -> Option<i64> {
+        Some(self.val() as i64)
+    }
+    fn to_u64(&self) -> Option<u64> {
+        Some(self.val() as u64)
+    }
+    fn to_f64(&self) -> Option<f64> {
+        Some(self.val())
+    }
+}
+impl FromPrimitive for Inv64 {
+    fn from_i64(n: i64) -> Option<Self> {
+        Some(Inv64::new(n as f64))
+    }
+    fn from_u64(n: u64) -> Option<Self> {
+        Some(Inv64::new(n as f64))
+    }
+    fn from_f64(v: f64) -> Option<Self> {
+        Some(Inv64::new(v))
+    }
+}
